@@ -165,9 +165,9 @@ def get_ast(func):
         return None
     try:
         rawsource = inspect.getsource(code)
-    except (OSError, IOError, SyntaxError, tokenize.TokenError):
-        # no source, or the file the code claims to come from is not
-        # (or no longer) Python source
+    except (OSError, IOError, SyntaxError, tokenize.TokenError, TypeError):
+        # no source, the file the code claims to come from is not (or no
+        # longer) Python source, or __code__ is no code object at all
         return None
     source = inspect.cleandoc('\n' + rawsource)
     try:
